@@ -92,3 +92,63 @@ pub fn parse_ops(args: &[String]) -> i32 {
     for (k, v) in st { println!("STAT {k} {v}"); }
     0
 }
+
+const ALIAS_BITS: &[&str] = &["a", "ʃ", "t͡s", "kʷʰ", "n̥", "g", "ñ", "¢", "C", "V", "O", "Q", "[", "]", "+", "-", "nas", "long", "str", "stress", "tone", "tn", ":", "51", "70000", "65535", "65536",
+    "99999999999999999999", ",", " ", ">", "=>", "->", "=", "<", "$", "*", "∅", "%", "#", "_", "sh", "á", "x", "\\", "@", "{", "}", "acute", "ACUTE", "brv", "zz", "u", "0301", "110000", "D800", "q", "'", "ʰ", "̥", "^",
+    "α", "A", ".", "\t", "\u{3000}", "\\u{301}", "@{acute}", "\\,", "\\>", "+@{grave}", "\\u{ 1F600 }", "@{ ring }"];
+
+fn alias_seg(g: &mut Gen) -> String {
+    let base = match g.rng.below(6) { 0 => "ʃ".to_string(), 1 => ["C", "V", "O", "N", "P"][g.rng.below(5)].to_string(), 2 => "[+str]".to_string(), 3 => "a".to_string(), 4 => "kʷ".to_string(), _ => g.seg() };
+    match g.rng.below(5) { 0 => format!("{base}:[+long]"), 1 => format!("{base}:[+str, -long]"), 2 => format!("{base}:[tone: {}]", ["5", "51", "214", "050", "65535", "65536"][g.rng.below(6)]), _ => base }
+}
+fn alias_repl(g: &mut Gen) -> String {
+    let r = ["sh", "tt", "á", "@{acute}", "\\u{00FE}", "@{Space}", "x", "*", "∅", "\\,", "a\\>b", "é@{grave}", "q\\u{301}"][g.rng.below(13)];
+    if g.rng.chance(1, 4) { format!("+{r}") } else { r.to_string() }
+}
+fn alias_gen(g: &mut Gen, derom: bool) -> String {
+    let n = 1 + g.rng.below(3);
+    let segs: Vec<String> = (0..n).map(|_| if g.rng.chance(1, 8) { "$".to_string() } else { let k = 1 + g.rng.below(2); (0..k).map(|_| alias_seg(g)).collect::<Vec<_>>().join("") }).collect();
+    let m = if g.rng.chance(2, 3) { n } else { 1 + g.rng.below(3) };
+    let repls: Vec<String> = (0..m).map(|_| alias_repl(g)).collect();
+    let arrow = [">", "=>", "->", " > "][g.rng.below(4)];
+    if derom { format!("{} {arrow} {}", repls.join(", "), segs.join(", ")) } else { format!("{} {arrow} {}", segs.join(", "), repls.join(", ")) }
+}
+fn alias_mutate(g: &mut Gen, line: &str) -> String {
+    let mut cs: Vec<String> = line.chars().map(|c| c.to_string()).collect();
+    if cs.is_empty() { return line.to_string() }
+    for _ in 0..1 + g.rng.below(2) {
+        let i = g.rng.below(cs.len());
+        match g.rng.below(4) { 0 => { cs.remove(i); if cs.is_empty() { cs.push("a".into()); } } 1 => { let x = cs[i].clone(); cs.insert(i, x); } 2 => { cs[i] = ALIAS_BITS[g.rng.below(ALIAS_BITS.len())].to_string(); } _ => { cs.insert(i, ALIAS_BITS[g.rng.below(ALIAS_BITS.len())].to_string()); } }
+    }
+    cs.concat()
+}
+
+/// `aliasp-ops <ops> <impl> <tier> <seed>`: the Lean port of the alias lexer + parser ≙ `AliasLexer::get_line` + `AliasParser::parse`
+pub fn alias_ops(args: &[String]) -> i32 {
+    quiet_panics();
+    let mut ops = std::io::BufWriter::new(std::fs::File::create(&args[0]).unwrap());
+    let mut imp = std::io::BufWriter::new(std::fs::File::create(&args[1]).unwrap());
+    let thorough = args.get(2).map(|s| s == "thorough").unwrap_or(false);
+    let seed: u64 = args.get(3).and_then(|s| s.parse().ok()).unwrap_or(1);
+    let mut g = Gen::new(seed ^ 0xA11A5);
+    let n = if thorough { 500_000 } else { 40_000 };
+    let mut st: std::collections::BTreeMap<String, u64> = Default::default();
+    for case in 0..n {
+        let derom = case % 2 == 0;
+        let (stream, line) = match case % 5 {
+            0 | 1 => ("grammar", alias_gen(&mut g, derom)),
+            2 => { let b = alias_gen(&mut g, derom); ("mutation", alias_mutate(&mut g, &b)) }
+            3 => ("c02-alias-line", crate::c02::alias_line(&mut g, derom)),
+            _ => { let k = 1 + g.rng.below(8); ("noise", (0..k).map(|_| ALIAS_BITS[g.rng.below(ALIAS_BITS.len())]).collect::<String>()) }
+        };
+        writeln!(ops, "aliasp {} {}", if derom { 1 } else { 0 }, cps(&line)).unwrap();
+        let out = match std::panic::catch_unwind(|| asca::verif::alias_line(derom, &line)) { Ok(s) => s, Err(_) => "panic".to_string() };
+        *st.entry(format!("aliasp.stream.{stream}")).or_default() += 1;
+        let class = out.split(' ').take(if out.starts_with("err") { 2 } else { 1 }).collect::<Vec<_>>().join(".");
+        *st.entry(format!("aliasp.outcome.{class}")).or_default() += 1;
+        writeln!(imp, "{}", out.trim_end()).unwrap();
+    }
+    println!("STAT aliasp.ops {n}");
+    for (k, v) in st { println!("STAT {k} {v}"); }
+    0
+}
